@@ -22,7 +22,9 @@ Decls == [parties |-> <<[name |-> "Sender", key |-> "sender"], [name |-> "Receiv
                       [name |-> "Var", record |-> FALSE,
                        cases |-> <<[name |-> "A", fields |-> <<[name |-> "x", ty |-> "Int"], [name |-> "y", ty |-> "Bytes"]>>],
                                    [name |-> "B", fields |-> <<>>],
-                                   [name |-> "C", fields |-> <<[name |-> "z", ty |-> "Int"]>>]>>]>>]
+                                   [name |-> "C", fields |-> <<[name |-> "z", ty |-> "Int"]>>],
+                                   \* a later alternative with the shape of Rec: built from a value of another constructor
+                                   [name |-> "D", fields |-> <<[name |-> "p", ty |-> "Int"], [name |-> "q", ty |-> "Bytes"]>>]>>]>>]
 Params == <<[name |-> "n", key |-> "n", ty |-> "Int"], [name |-> "Mixed", key |-> "mixed", ty |-> "Int"],
             [name |-> "b", key |-> "b", ty |-> "Bytes"]>>
 
@@ -96,6 +98,11 @@ Datum1 == {RecAll,
            CtorE("Var", "A", <<F("x", Op("sub", Op("sub", PN, PM), Lit(2))), F("y", Op("concat", PB, Hex(<<1>>)))>>, Absent),
            CtorE("Var", "B", <<>>, Absent),
            CtorE("Var", "C", <<F("z", Prop(Source, "f1"))>>, Absent),
+           \* alternative 3 taking all / some of its fields from a value whose own constructor is 0
+           CtorE("Var", "D", <<>>, Source),
+           CtorE("Var", "D", <<F("q", Hex(<<9>>))>>, Source),
+           CtorE("Var", "D", <<F("p", Prop(Source, "f1")), F("q", Prop(Source, "f2"))>>, Absent),
+           CtorE("Var", "D", <<F("q", Prop(Source, "f2")), F("p", Op("add", Prop(Source, "f1"), Lit(1)))>>, Absent),
            [k |-> "unit"], Source, PN, PB, Prop(Source, "f2"),
            [k |-> "list", items |-> <<Lit(1), PN, Prop(Source, "f1")>>],
            [k |-> "list", items |-> <<>>],
